@@ -124,6 +124,16 @@ func Exec(in *Inst, o m.Op) (res *Result) {
 		if idv, has := o.Docs[0]["_id"]; !has || idv == "" {
 			res.GenIDs = append(res.GenIDs, doc.ObjectId())
 		}
+	case "saveStruct":
+		// Save given a struct (not a document): _id and v through clover tags
+		type rec struct {
+			Id string `clover:"_id,omitempty"`
+			V  int64  `clover:"v"`
+		}
+		r := rec{}
+		r.Id, _ = o.Docs[0]["_id"].(string)
+		r.V, _ = o.Docs[0]["v"].(int64)
+		res.Err = db.Save(o.Coll, &r)
 	case "replaceById":
 		res.Err = db.ReplaceById(o.Coll, o.Id, Doc(o.Docs[0]))
 	case "updateById":
